@@ -39,7 +39,11 @@ pub fn render_obo(f: &FactSet, rng: &mut Rng, o: &JaxOpts) -> String {
         let mut s = String::from("[Term]\n");
         let mut lines: Vec<String> = Vec::new();
         lines.push(format!("id: {}", hp(t.id)));
-        lines.push(format!("name: {}", t.name));
+        // tag order inside a stanza is free: in some noisy stanzas the name is the last tag
+        let name_last = o.noise && rng.chance(1, 5);
+        if !name_last {
+            lines.push(format!("name: {}", t.name));
+        }
         if o.noise {
             if rng.chance(1, 2) {
                 lines.push(format!("alt_id: {}", hp(rng.range(1, 9_999_999) as u32)));
@@ -73,6 +77,10 @@ pub fn render_obo(f: &FactSet, rng: &mut Rng, o: &JaxOpts) -> String {
         }
         if o.noise && t.obsolete && rng.chance(1, 2) {
             flag_lines.push(format!("consider: {}", hp(rng.range(1, 9_999_999) as u32)));
+        }
+        if o.noise && rng.chance(1, 2) {
+            // replaced_by / consider before is_obsolete
+            flag_lines.reverse();
         }
         let mut ps = parents.get(&t.id).cloned().unwrap_or_default();
         if o.shuffle {
@@ -145,6 +153,9 @@ pub fn render_obo(f: &FactSet, rng: &mut Rng, o: &JaxOpts) -> String {
             lines.extend(flag_lines);
             lines.extend(isa_lines);
         }
+        if name_last {
+            lines.push(format!("name: {}", t.name));
+        }
         for l in lines {
             s.push_str(&l);
             s.push('\n');
@@ -182,8 +193,20 @@ pub fn render_obo(f: &FactSet, rng: &mut Rng, o: &JaxOpts) -> String {
     for s in stanzas {
         out.push('\n');
         out.push_str(&s);
+        // a paragraph that is neither the header nor a stanza (OBO comment lines start with '!')
+        if o.noise && rng.chance(1, 15) {
+            out.push_str("\n! a comment paragraph between two stanzas\n! data-version: hp/releases/1998-08-08\n");
+        }
     }
-    drop_final_newline_sometimes(&mut out, rng);
+    if o.noise && rng.chance(1, 3) {
+        // empty line(s) after the last stanza
+        out.push('\n');
+        if rng.chance(1, 2) {
+            out.push('\n');
+        }
+    } else {
+        drop_final_newline_sometimes(&mut out, rng);
+    }
     out
 }
 
